@@ -615,29 +615,32 @@ func contractAddr(k int) types.EthAddress {
 }
 
 type hist struct {
-	e        *env
-	run      *emit.Run
-	cfg      config
-	ops      []opSpec
-	steps    []string
-	human    []string
-	acc      map[uint64]txo
-	accD     map[uint64]int  // denom whose coins were locked when the transfer was accepted
-	applied  map[string]bool // remote events whose handler ran to the end inside an end-block
-	refund   map[uint64]bool
-	burned   map[uint64]bool
-	dep      []*big.Int
-	exe      []*big.Int
-	s0       snap
-	tb0      []entry
-	okN      int
-	errN     int
-	faultN   int
-	probeN   int
-	viol     bool
-	panics   bool // the history injected a panic
-	skip     bool // do not hand the history to the model (panic faults on a tree without the fix)
-	thorough bool
+	e         *env
+	run       *emit.Run
+	cfg       config
+	ops       []opSpec
+	steps     []string
+	human     []string
+	acc       map[uint64]txo
+	accD      map[uint64]int  // denom whose coins were locked when the transfer was accepted
+	applied   map[string]bool // remote events whose handler ran to the end inside an end-block
+	stop      bool            // the history ends here (a known finding the model does not follow)
+	e2dBefore []int           // the ERC20 -> denom index before a genesis round trip
+	remapped  bool            // a denom with pending transfers was just re-pointed: a genesis round trip is due
+	refund    map[uint64]bool
+	burned    map[uint64]bool
+	dep       []*big.Int
+	exe       []*big.Int
+	s0        snap
+	tb0       []entry
+	okN       int
+	errN      int
+	faultN    int
+	probeN    int
+	viol      bool
+	panics    bool // the history injected a panic
+	skip      bool // do not hand the history to the model (panic faults on a tree without the fix)
+	thorough  bool
 }
 
 func (h *hist) violate(id, what string) {
@@ -978,6 +981,25 @@ func (h *hist) apply(ctx sdk.Context, o opSpec, p prep) result {
 		}
 		h.run.Count("nonce-reset-and-replay", ev.Kind)
 		r.term = "OGov"
+	case "genesis":
+		// the chain is restarted from an exported genesis: the real ExportGenesis, every key of the
+		// module's store deleted, the real InitGenesis (the bank ledger is the bank module's own genesis)
+		r.err, r.pan = deliver(ctx, false, func(ctx sdk.Context) error {
+			gs := keeper.ExportGenesis(ctx, e.k)
+			st := e.k.VerifC11RawStore(ctx)
+			var keys [][]byte
+			it := st.Iterator(nil, nil)
+			for ; it.Valid(); it.Next() {
+				keys = append(keys, append([]byte{}, it.Key()...))
+			}
+			it.Close()
+			for _, key := range keys {
+				st.Delete(key)
+			}
+			keeper.InitGenesis(ctx, e.k, gs)
+			return nil
+		})
+		r.term = "OGenesis"
 	case "mapgov":
 		// governance path of setDenomToERC20 (legacy proposal handler; MsgSetERC20MappingProposal calls the same function)
 		r.err, r.pan = deliver(ctx, true, func(ctx sdk.Context) error {
@@ -1070,7 +1092,7 @@ func (h *hist) attest(ctx sdk.Context, claim interface {
 // probe-able: operations whose every fault point can be tried from the same pre-state
 func faultable(kind string) bool {
 	switch kind {
-	case "settax", "setlimit", "mapgov", "resetnonce":
+	case "settax", "setlimit", "mapgov", "resetnonce", "genesis":
 		return false
 	}
 	return true
@@ -1176,6 +1198,14 @@ func (h *hist) exec(o opSpec, probe, all bool) {
 	}
 	if o.Panic {
 		h.panics = true
+	}
+	if o.Kind == "genesis" {
+		h.e2dBefore = h.e2dBefore[:0]
+		for c := range chains {
+			for k := range contracts {
+				h.e2dBefore = append(h.e2dBefore, e.denomOf(e.root, c, k))
+			}
+		}
 	}
 	var probes []string
 	if probe {
@@ -1338,6 +1368,48 @@ func (h *hist) oracle(o opSpec, ok, atomicKind bool, before, after snap, log []h
 			}
 		}
 	}
+	if o.Kind == "genesis" {
+		// across the round trip: every pending transfer is still pending, in the same place, with the
+		// byte-identical record; no balance moved
+		if !ok {
+			h.violate("C01:genesis-round-trip-panicked", "ExportGenesis / InitGenesis panicked on a state reached by bridge operations")
+			h.stop = true
+			return
+		}
+		if !before.equal(after) {
+			lost := []uint64{}
+			still := map[uint64]bool{}
+			for _, t := range append(append([]txo{}, after.pool...), batchTxs(after)...) {
+				still[t.id] = true
+			}
+			for _, t := range append(append([]txo{}, before.pool...), batchTxs(before)...) {
+				if !still[t.id] {
+					lost = append(lost, t.id)
+				}
+			}
+			h.violate("C01:genesis-changed-pending-transfers", fmt.Sprintf("export + import of the module changed pool / batches / balances; pending transfers lost: %v (in no place at all: not cancellable, amount+tax stays in escrow)", lost))
+		}
+		// (a tree whose export drops ERC20 -> denom entries nobody waits for: no clause is violated, but
+		// the model follows the repaired export, so the history ends here)
+		for c := range chains {
+			for k := range contracts {
+				if h.e2dBefore[c*len(contracts)+k] != e.denomOf(e.root, c, k) {
+					h.stop = true
+				}
+			}
+		}
+		if h.stop {
+			h.run.Count("genesis-dropped-a-reverse-entry", "history ended")
+		}
+		// the denom a pending transfer is refunded / burned in must survive too
+		for _, t := range append(append([]txo{}, after.pool...), batchTxs(after)...) {
+			if ld, f := h.accD[t.id]; f && e.denomOf(e.root, t.chain, t.contract) != ld {
+				h.violate("C01:genesis-drops-reverse-entry", fmt.Sprintf("after export + import transfer %d (contract %d, no longer the current ERC20 of %s) has no denom any more: it can neither be cancelled nor executed, its coins stay locked", t.id, t.contract, denoms[ld]))
+				h.stop = true // the model follows the repaired export
+				return
+			}
+		}
+	}
 	// bookkeeping of what the history says happened
 	if ok {
 		switch o.Kind {
@@ -1414,7 +1486,7 @@ func (h *hist) oracle(o opSpec, ok, atomicKind bool, before, after snap, log []h
 			}
 		}
 	}
-	if (o.Kind == "settax" || o.Kind == "setlimit" || o.Kind == "mapgov" || o.Kind == "mapadmin" || o.Kind == "resetnonce") && !before.equal(after) {
+	if (o.Kind == "settax" || o.Kind == "setlimit" || o.Kind == "mapgov" || o.Kind == "mapadmin" || o.Kind == "resetnonce" || o.Kind == "genesis") && !before.equal(after) {
 		h.violate("C01:governance-moved-bridge-funds", o.Kind+" changed pool / batches / balances")
 	}
 	// (4) a bridge operation that reports failure leaves pool, batches and balances as they were
@@ -1633,6 +1705,12 @@ func (h *hist) genOp(r *rand.Rand, ck *clock, search bool) opSpec {
 	hostile := r.Intn(100) < 15
 	pickEntry := func() entry { return rows[r.Intn(len(rows))] }
 	g := r.Intn(100)
+	if (h.remapped && r.Intn(2) == 0) || r.Intn(100) < 3 {
+		// restart from an exported genesis, preferably while transfers of a contract that is no longer
+		// the current ERC20 of their denom are pending
+		h.remapped = false
+		return opSpec{Kind: "genesis", Fault: -1}
+	}
 	switch {
 	case g < 7:
 		// governance: new tax rate and exemption list for a denom, preferably one with pending transfers
@@ -1700,6 +1778,7 @@ func (h *hist) genOp(r *rand.Rand, ck *clock, search bool) opSpec {
 		if d := e.denomOf(e.root, o.C, o.K); d >= 0 && d != o.D {
 			o.D = d // stay inside the guard (the unguarded case is the known finding, see corpus G1)
 		}
+		h.noteRemap(s, rows, o)
 		h.run.Count("mapgov", fmt.Sprintf("contract-bound-before=%v denom-mapped-before=%v pending=%d", e.denomOf(e.root, o.C, o.K) >= 0, hasRow(rows, o.C, o.D), len(s.pool)+len(s.batches)))
 		return o
 	case g < 21:
@@ -1728,6 +1807,7 @@ func (h *hist) genOp(r *rand.Rand, ck *clock, search bool) opSpec {
 		if o.Fault >= 0 {
 			o.Fault = 0
 		}
+		h.noteRemap(s, rows, o)
 		return o
 	}
 	w := r.Intn(100)
@@ -1899,6 +1979,20 @@ func (h *hist) genOp(r *rand.Rand, ck *clock, search bool) opSpec {
 	return o
 }
 
+// noteRemap: o re-points a (chain, denom) that has pending transfers of its current contract
+func (h *hist) noteRemap(s snap, rows []entry, o opSpec) {
+	for _, en := range rows {
+		if en.C == o.C && en.D == o.D && en.K != o.K {
+			for _, t := range append(append([]txo{}, s.pool...), batchTxs(s)...) {
+				if t.chain == en.C && t.contract == en.K {
+					h.remapped = true
+					h.run.Count("denom-repointed-with-pending-transfers", o.Kind)
+				}
+			}
+		}
+	}
+}
+
 func batchTxs(s snap) []txo {
 	var out []txo
 	for _, b := range s.batches {
@@ -2022,6 +2116,9 @@ func TestCorr(t *testing.T) {
 		}
 		h := newHist(t, run, cf.Config)
 		for _, o := range cf.Ops {
+			if h.stop {
+				break
+			}
 			h.exec(o, false, false)
 		}
 		h.finish("corpus:" + filepath.Base(f))
@@ -2042,7 +2139,7 @@ func TestCorr(t *testing.T) {
 			n = 10 + r.Intn(40)
 		}
 		ck := &clock{h: h.e.root.BlockHeight(), now: 0}
-		for i := 0; i < n; i++ {
+		for i := 0; i < n && !h.stop; i++ {
 			o := h.genOp(r, ck, search)
 			probe := thorough || r.Intn(100) < 12 || ((o.Kind == "fullblock" || o.Kind == "endblock") && r.Intn(100) < 40)
 			h.exec(o, probe, thorough)
